@@ -1,8 +1,57 @@
-"""property -> units / harness groups"""
+"""property -> units / harness groups, claim texts, not-applicable list"""
+
+VERUS_TECH = 'contract-based deductive verification (Verus/Z3) of functions extracted mechanically from /repo'
 
 PROPERTIES = {
-    'C01': dict(level='proof', verus=['rlabels', 'rbranch'], kani=[], out=[]),
-    'C02': dict(level='proof', verus=['cwrite', 'wjump'], kani=[], out=[]),
-    'C17': dict(level='proof', verus=['rskip'], kani=[], out=[]),
-    'C16': dict(level='proof', verus=['rlabels', 'cwrite', 'wjump', 'rskip', 'rbranch'], kani=[], out=[]),
+    'C01': dict(
+        level='proof', verus=['rlabels', 'rbranch'], kani=[],
+        technique=VERUS_TECH,
+        claim='Unbounded proof, for the functions under contract only: the reader offset->Label table (bounds checks, exact lookup, frame, injectivity invariant), '
+              'branch-target arithmetic (i16/i32 offsets, u16 range check), switch padding and the primitive big-endian readers satisfy postconditions taken from the property statement. '
+              'Partial: the opcode match of read_code, constant-pool resolution and the tree visitor are not under contract.',
+        note='Trusted: Verus+Z3; extraction rewrites (error text dropped); assumed trait-level contracts describing std::io::Cursor; from_be_bytes stubs; '
+             'external_body Labels::get_or_add_unchecked (HashMap::entry is outside Verus); fewer than 65535 labels.',
+        out=['duke/src/class_reader.rs read_code opcode match (closure)', 'duke/src/class_reader/pool.rs', 'duke/src/visitor/implementations/tree.rs']),
+    'C02': dict(
+        level='proof', verus=['cwrite', 'wjump'], kani=[],
+        technique=VERUS_TECH,
+        claim='Unbounded proof, for the functions under contract only: every jump emitted by if_helper/goto_helper/switch_helper has exactly the narrow / wide / inverted-if+goto_w byte shape with the offset that lands on the label, '
+              'the narrow form is chosen iff the offset fits i16, unresolved jumps reserve a slot whose recorded patch position and base are exact, put_i16_at/put_i32_at patch big-endian and touch nothing else, '
+              'alignment pads with <4 zero bytes, checked usize->uN length writers. Partial: the retry loop of write_code, pool de-duplication and attribute emitters are not under contract.',
+        note='Trusted: Verus+Z3; extraction rewrites; Vec<u8> sink model (write_all appends, never fails); to_be_bytes stubs; obeys_key_model::<Label>(); ordered LabelRange precondition.',
+        out=['write_code retry loop and instruction match (closure)', 'duke/src/simple_class_writer/pool.rs PoolWrite::put (HashMap::entry)', 'attribute emitters']),
+    'C16': dict(
+        level='proof', verus=['rlabels', 'cwrite', 'wjump', 'rskip', 'rbranch'], kani=[],
+        technique=VERUS_TECH + ': implicit safety obligations (overflow, index, unwrap, unreachable, termination)',
+        claim='Unbounded proof of panic-freedom and termination for every function extracted for the other properties (Verus generates no-overflow, in-bounds, no-failing-unwrap, unreachable!() unreachable, decreases obligations for each). '
+              'Partial: text parsers built on Peekable<Chars>/BufRead are outside the verifier and not covered.',
+        note='Trusted: as for the units involved (see evidence.trusted_base). Machine integers are machine integers; usize is 64 bit.',
+        out=['quill/src/lines.rs, tiny_v2.rs, tiny_v2_diff.rs, enigma_file.rs, dukenest/src/io.rs (text parsers)', 'duke/src/tree/descriptor.rs read_field_type (Peekable<Chars>)', 'read_code closures']),
+    'C17': dict(
+        level='proof', verus=['rskip'], kani=[],
+        technique=VERUS_TECH,
+        claim='Unbounded proof, for the functions under contract only: skip_attributes consumes exactly the attribute table (count + each 6-byte header + attribute_length bytes) and fails iff a header lies beyond the data; '
+              'with_pos restores the stream position; the primitive readers consume exactly their width. Partial: per-attribute interest arms and accept() replay are not under contract.',
+        note='Trusted: Verus+Z3; extraction rewrites; assumed Cursor contracts for marker/skip/goto/read_n/read_u8_vec; from_be_bytes stubs.',
+        out=['interest arms inside read/read_field/read_method/read_code', 'duke/src/tree/*.rs accept() replay']),
+}
+
+NOT_APPLICABLE = {
+    'C03': 'text I/O through BufRead/fmt and four levels of &mut-capturing closures: outside the Verus subset, non-terminating in CBMC; no contract over str bytes is expressible with the installed verifiers',
+    'C05': 'file-system scan + petgraph A* inside the binary crate; nothing on the path is free of I/O or external data structures that a contract could be attached to',
+    'C07': 'whole-tree Mappable traversal + zip I/O; the property is a completeness statement over ~60 tree types that cannot be brought into a single-file Verus unit nor executed by CBMC',
+    'C10': 'keep-conditions are closures inside IndexMap::retain; the smallest bounded Kani instance on the real tree gave no verdict in 10 min (IndexMap/RandomState/JavaString)',
+    'C12': 'as C03, plus directory tree I/O (walkdir)',
+    'C14': 'string surgery on JavaString + IndexMap recursion + jar I/O; the claim relates two whole-program transformations',
+    'C15': 'code lives in the binary crate (tokio/reqwest/zip dependency closure not compilable by Kani), predicates over IndexMap/IndexSet graphs',
+    # not yet built in this session (moved to claimed checks as they are built):
+    'C04': 'not yet built (planned: Verus apply_diff_option/Action + Kani twins)',
+    'C06': 'not yet built (planned: bounded Kani map_desc)',
+    'C08': 'not yet built (planned: Kani-complete Names::reorder)',
+    'C09': 'not yet built (planned: Kani-complete merge_names)',
+    'C11': 'not yet built (planned: bounded Kani inner class split/join)',
+    'C13': 'not yet built (planned: bounded Kani merge_preserve_order)',
+    'C18': 'not yet built (planned: bounded Kani descriptor grammar)',
+    'C19': 'not yet built (planned: Verus the_scope_table)',
+    'C20': 'not yet built (planned: Verus attribute_length per variant on macro-expanded raw_class_file)',
 }
